@@ -231,6 +231,7 @@ def spec_check(c, obs):
     binary = c["suite"] == "bin"
     out = []
     ins = {}                   # key -> set of pairs handed to insert_if_not_present so far (all strata)
+    ins_merged = {}            # the same, up to the last merge
     new_round = {}             # key -> set of pairs inserted since the last merge
     round_keys = set()         # keys for which insert was called since the last merge
     prev = None                # previous read (same stratum)
@@ -275,7 +276,7 @@ def spec_check(c, obs):
                     rm_add(rm["new"][1], p[1], k)
             else:
                 # hT / hD: the head update found the tuple in total / delta: it must be in the closure of what was inserted
-                if tup(c, o) not in closure(c, {kk: ins.get(kk, set()) - new_round.get(kk, set()) for kk in ins}):
+                if tup(c, o) not in closure(c, ins_merged):
                     add(n, "P5", "contains", "t" if r[0] == "hT" else "d", [tup(c, o)], None, "contains_key answered true for %s which is outside the closure" % (tup(c, o),))
             continue
         if o[0] == "e":
@@ -284,7 +285,6 @@ def spec_check(c, obs):
         if o[0] == "s":
             rm["d"], rm["t"], rm["new"] = rm["stored"], ({}, {}), ({}, {})
             new_round, round_keys = {}, set()
-            served = closure(c, ins)
             merged = False
         else:   # m
             rm["t"] = (rm_union(rm["d"][0], rm["t"][0]), rm_union(rm["d"][1], rm["t"][1]))
@@ -353,6 +353,7 @@ def spec_check(c, obs):
                 add(n, "P5", "contains", ver, set(a) ^ set(b), None, "contains_key and index_get of the full index disagree")
         prev = rd
         prev_ment = ment_now
+        ins_merged = {k: set(ps) for k, ps in ins.items()}
         new_round, round_keys = {}, set()
     return out
 
